@@ -6,7 +6,7 @@
    algorithms use as the number of parts); [gap] = heaviest - lightest load. *)
 From Coupe Require Import Lib.Prelude Model.NumPart Model.Vn
   Proofs.NumPartLemmas Proofs.VnBestProofs Proofs.VnFirstProofs Gen.VnGen
-  Lib.SFloat Model.ArithW Model.VnW Proofs.VnWProofs Proofs.ArithWLemmas Proofs.VnBestWTermination.
+  Lib.SFloat Model.ArithW Model.VnW Proofs.VnWProofs Proofs.ArithWLemmas Proofs.VnBestWTermination Proofs.F64RoundFacts.
 From Coq Require Import Floats.SpecFloat.
 Open Scope Z_scope.
 
@@ -169,15 +169,32 @@ Theorem C14_f64_order_rank_laws :
 Proof. exact (conj F64_order_laws_V (conj rankV_nonneg (conj rankV_mono okV_nonneg))). Qed.
 Print Assumptions C14_f64_order_rank_laws.
 
-(* ... and, GIVEN the ten IEEE-754 facts of [f64_rounding_facts] about rounded + and - (monotone in the
-   weight, inside [m, M], no NaN / -0.0 / negative result; not proved here for SpecFloat's SFadd / SFsub),
-   VnBest with the progress test terminates on finite non-negative binary64 weights *)
-Theorem C14_vnbest_f64_terminates : f64_rounding_facts ->
+(* ... and so are the ten IEEE-754 facts about rounded + and - that the measure needs (monotone in the
+   weight, inside [m, M], no NaN / -0.0 / negative result), for SpecFloat's SFadd / SFsub at (53,1024),
+   through Flocq (Bplus_correct / Bminus_correct, round_le, Bltb_correct).  These two theorems, and only
+   these, depend on the axioms of Coq's classical real numbers. *)
+Theorem C14_f64_rounding_facts : f64_rounding_facts.
+Proof. exact f64_rounding_facts_hold. Qed.
+Print Assumptions C14_f64_rounding_facts.
+
+(* VnBest with the progress test of fix 98041ea terminates on finite non-negative binary64 weights (in their
+   canonical representation: [okV]) whose initial part loads are finite ("the sums do not overflow"): beyond a
+   (symbolic, huge) bound the model never answers OutOfFuel.  No premise about the arithmetic. *)
+Theorem C14_vnbest_f64_terminates :
   forall ws p, Forall okV ws ->
   (forall L, parts_loadW F64arith ws p (part_count p) = Ok L -> Forall okV L) ->
   exists fuel0, forall fuel, (fuel0 <= fuel)%nat -> vn_bestW F64arith true fuel ws p <> OutOfFuel.
-Proof. exact vn_bestW_f64_terminates. Qed.
+Proof. exact vn_bestW_f64_terminates_closed. Qed.
 Print Assumptions C14_vnbest_f64_terminates.
+
+(* non-vacuity: the former oscillation witness satisfies the hypotheses *)
+Example C14_vnbest_f64_terminates_nonvacuous :
+  Forall okV osc_ws /\ (forall L, parts_loadW F64arith osc_ws osc_p (part_count osc_p) = Ok L -> Forall okV L).
+Proof.
+  split.
+  - repeat constructor; vm_compute; auto; intuition congruence.
+  - intros L H. vm_compute in H. injection H as <-. repeat constructor; vm_compute; auto; intuition congruence.
+Qed.
 
 (* why not simply "the tracked imbalance decreases": 1e16 0.25 0.25 0.25 with parts 0 0 0 1 -- the weight
    0.25 moves, yet the largest load, the imbalance (and the number of parts at the maximum) are unchanged *)
